@@ -498,16 +498,22 @@ class Solver:
         logging.debug("Value iteration for reachability:")
         logging.debug("-"*80)
         i = 0
-        while diff > self.threshold:
+        # keep sweeping while some state has just left zero: a probability below
+        # the threshold is still not "no way to reach the final states"
+        left_zero = False
+        while diff > self.threshold or left_zero:
             logging.debug(f"iteration {i}")
             i += 1
             max_diff = 0
+            left_zero = False
             for state_idx in states_reaching_final:
                 state = self.state_list[state_idx]
                 reach_probability_next = state.value_iteration_reach(self.state_list)
                 current_diff = abs(reach_probability_next - state.reach_probability)
                 if current_diff > max_diff:
                     max_diff = current_diff
+                if state.reach_probability == 0 and reach_probability_next > 0:
+                    left_zero = True
                 logging.debug(f"{state.idx} {state.reach_probability}")
                 state.reach_probability = reach_probability_next
             diff = max_diff
